@@ -6,7 +6,8 @@ from ir import *
 KEYWORDS = ["type", "match", "self", "async", "fn", "mod", "loop", "box", "dyn", "union", "ref", "move", "use", "where",
             "impl", "trait", "struct", "enum", "crate", "super", "static", "const", "pub", "in", "as", "yield", "macro",
             "override", "final", "abstract", "priv", "typeof", "virtual", "do", "become", "unsized", "try", "await", "new"]
-PRELUDE_TYPES = ["Option", "Vec", "String", "Box", "Result", "Ok", "Err", "Some", "None", "Send", "Into", "IntoIterator",
+# "Option" and "Some" are pinned witnesses (they break educe-derived code when the type holds a double)
+PRELUDE_TYPES = ["Vec", "String", "Box", "Result", "Ok", "Err", "None", "Send", "Into", "IntoIterator",
                  "Default", "Clone", "Iterator", "Sized", "Sync", "Copy", "Drop", "Fn", "Eq", "Ord", "Hash", "Debug", "Display",
                  "Error", "Self", "Any", "Bytes", "Uuid", "DateTime", "BTreeMap", "BTreeSet", "Unknown"]
 WORDS = ["alpha", "beta", "gamma", "delta", "omega", "node", "leaf", "item", "entry", "value", "key", "name", "count", "ratio",
@@ -69,6 +70,7 @@ class LabGen:
         self.by_name = {}
         self.services = []
         self.errors = []
+        self.error_defs = []
         self.used_names = set()
         self._build()
 
@@ -160,7 +162,7 @@ class LabGen:
                 continue
             return False
 
-    def type_expr(self, idx, depth=0, container=False):
+    def type_expr(self, idx, depth=0, container=False, no_double=False):
         """A type expression for a field of type #idx. Direct references only point backwards;
         inside containers (and for union members) forward / self references are allowed."""
         r = self.r
@@ -168,19 +170,31 @@ class LabGen:
         if depth < 3 and x < 0.38:
             k = r.random()
             if k < 0.3:
-                inner = self.type_expr(idx, depth + 1, True)
+                inner = self.type_expr(idx, depth + 1, True, no_double)
                 if self.is_optional(inner):          # no optional<optional<..>>
                     return lst(inner)
                 return opt(inner)
             if k < 0.55:
-                return lst(self.type_expr(idx, depth + 1, True))
+                return lst(self.type_expr(idx, depth + 1, True, no_double))
             if k < 0.7:
-                return set_(self.type_expr(idx, depth + 1, True))
-            return map_(self.key_type(idx), self.type_expr(idx, depth + 1, True))
+                # a set whose item is a *collection / optional* holding a double does not compile
+                # (pinned finding C03-set-of-collection-with-double): such items are drawn double-free;
+                # set<double> itself is fine
+                item = self.type_expr(idx, depth + 1, True, True)
+                if not no_double and self.r.random() < 0.15:
+                    item = prim("DOUBLE")
+                return set_(item)
+            return map_(self.key_type(idx) if not no_double else prim("STRING"), self.type_expr(idx, depth + 1, True, no_double))
         if x < 0.72 or not self.types:
-            return self.scalar()
+            t = self.scalar()
+            if no_double and t == prim("DOUBLE"):
+                t = prim("STRING")
+            return t
         if self.p.externals and x < 0.75:
-            return external(upper_camel(r.sample(WORDS, 2)), "java.ext", self.scalar(False))
+            fb = self.scalar(False)
+            if no_double and fb == prim("DOUBLE"):
+                fb = prim("STRING")
+            return external(upper_camel(r.sample(WORDS, 2)), "java.ext", fb)
         if container and r.random() < self.p.cycles and idx < len(self._planned):
             # forward or self reference (recursion through a container)
             j = r.randrange(idx, len(self._planned))
@@ -270,9 +284,17 @@ class LabGen:
             names = self.member_names(r.choice([0, 1, 2, 4]), "camel")
             fs = [field(n, r.choice(self.types).ref() if (self.types and r.random() < 0.3) else self.type_expr(len(self.types), 1)) for n in names]
             k = r.randrange(len(fs) + 1)
-            self.errors.append(error(name, r.choice(self.p.packages), upper_camel(r.sample(WORDS, 1)),
+            pkg = r.choice(self.p.packages)
+            self.errors.append(error(name, pkg, upper_camel(r.sample(WORDS, 1)),
                                      r.choice(["INVALID_ARGUMENT", "NOT_FOUND", "CONFLICT", "INTERNAL", "CUSTOM_CLIENT", "PERMISSION_DENIED"]),
                                      fs[:k], fs[k:]))
+            # errors are objects on the wire (safe args first): usable by the value model
+            d = TDef("object", name, pkg)
+            d.fields = [(f["fieldName"], f["type"], None) for f in fs]
+            d.is_error = True
+            d.n_safe = k
+            self.error_defs.append(d)
+            self.by_name[name] = d
 
     # ---- services
     def param_type(self, kind):
